@@ -444,6 +444,13 @@ class Hist:
         else:
             alpha = self.cfg['alphabet'] if kind == 'build' else rng.choice(('plain', 'digits'))
             net = gennet.random_net(rng, n, rng.randint(0, 10), self.types(), self.cfg['max_arity'], alpha)
+            if kind == 'build' and net.inputs and rng.random() < 0.04 and '' not in net.gates and self.prop not in ('C11', 'C04'):
+                # the first input carries the empty string as its label (any str is a label)
+                x = net.inputs[0]
+                ren = lambda y: '' if y == x else y
+                net = Net({ren(g): (t, tuple(ren(o) for o in ops)) for g, (t, ops) in net.gates.items()},
+                          [ren(y) for y in net.inputs], [ren(y) for y in net.outputs])
+                self.res.stats.probes.bump('first-input-labelled-with-the-empty-string')
             if kind == 'build':
                 real = self.call(lambda: observe.build_real(C, self.GT, net), [], True, f'build {len(net.gates)} gates')
             else:
